@@ -444,6 +444,10 @@ def rule_stored_names_are_fixed_points(repo: Repo, rep: Report, rule: str = "R20
         return
     from sa.match import Locals as _L
 
+    if not any(isinstance(x, ast.Dict) and any(k is not None and const_str(k) == "name" for k in x.keys) for x in own_nodes(pp.node)):
+        from sa.flatten import flatten as _fl205
+
+        pp = _fl205(pp)  # the records are built by a helper of the processor (`self._make_param_info(name=...)`): written out
     L = _L(pp.node)
     n = 0
 
